@@ -148,6 +148,64 @@ func s1() {
 	vrt.Observe("rmErr=%v", rmErr != nil)
 }
 
+// registerLight is register without a draining thread: the queue is inspected
+// by the main thread at quiescence (fewer threads: the whole interleaving
+// tree of the small scenarios can be exhausted).
+func registerLight(e net.EndPoint, name string, match func(h *net.Header) (bool, bool)) (*mon, chan *net.Message) {
+	m := &mon{name: name, match: match, early: true}
+	q := make(chan *net.Message, 4)
+	m.id = e.MakeHandler(m.filter, q, m.closer)
+	return m, q
+}
+
+// settleLight drains the queue without blocking and records whether it was closed.
+func (m *mon) settleLight(q chan *net.Message) {
+	for {
+		select {
+		case msg, ok := <-q:
+			if !ok {
+				m.queueClosed = true
+				if m.closerCalls != 1 {
+					vrt.Failf("queue-closed-without-closer/"+m.name, "queue closed while closer had been called %d times", m.closerCalls)
+				}
+				return
+			}
+			m.received = append(m.received, msg)
+		default:
+			return
+		}
+	}
+}
+
+// S1x: S1 with two handlers and no draining threads (exhaustible).
+func s1x() {
+	a, b := vnet.NewPair("ep", "peer")
+	ep := net.NewEndPoint(a)
+	h, hq := registerLight(ep, "h", matchAllKeep)
+	vrt.Explore()
+	var rmErr error
+	w1 := vrt.GoWorker("remover", func() { rmErr = ep.RemoveHandler(h.id) })
+	w2 := vrt.GoWorker("peer", func() {
+		m := frame(7, 3)
+		m.Write(b)
+	})
+	w3 := vrt.GoWorker("closer", func() { ep.Close() })
+	vrt.Quiesce()
+	workersDone(w1, w2, w3)
+	h.settleLight(hq)
+	h.check()
+	checkIntact("corrupt/h", h.received)
+	if len(h.received) > 1 {
+		vrt.Failf("delivery-count", "h got %d", len(h.received))
+	}
+	if rmErr != nil {
+		vrt.Flag("close-won")
+	} else if len(h.received) == 1 {
+		vrt.Flag("delivered-then-removed")
+	}
+	vrt.Observe("rmErr=%v recv=%d", rmErr != nil, len(h.received))
+}
+
 // S2: a self-removing filter || RemoveHandler(same id) || two incoming frames.
 func s2() {
 	a, b := vnet.NewPair("ep", "peer")
@@ -494,6 +552,7 @@ func init() {
 	add := func(name string, body func(), q, t int, doc string, must ...string) {
 		reg.Register(&reg.Scenario{Property: "C17", Name: name, Body: body, Quick: q, Thorough: t, Doc: doc, MustFlag: must})
 	}
+	add("s1x-remove-dispatch-close-exhaustive", s1x, 2, 99, "S1 with one handler and no draining threads: RemoveHandler(h) || peer frame || Close(); the whole interleaving tree", "close-won", "delivered-then-removed")
 	add("s1-remove-dispatch-close", s1, 2, 99, "RemoveHandler(h) || peer frame matching h || Close()", "close-won", "delivered-then-removed")
 	add("s2-selfremove-remove-frames", s2, 2, 99, "keep=false filter || RemoveHandler(same id) || two frames", "self-removed-first")
 	add("s3a-peerclose-between-frames", s3(0), 2, 99, "peer closes between frames || RemoveHandler || MakeHandler", "late-handler-closed", "late-handler-after-shutdown")
